@@ -3,7 +3,6 @@ from re import Pattern
 
 ELLIPSIS_PATTERN: Pattern[str] = re.compile(
     r"(^|[\w\"\'“‘”’])(\s*)(\.\.\.)([.,:;?!)\-—\"\'”’]?)(\s*)",
-    re.MULTILINE,
 )
 
 
@@ -12,7 +11,7 @@ def ellipses(text: str) -> str:
     Replace three consecutive dots with a proper ellipsis character (…).
 
     Rules:
-    - `...` must be preceded by start of line OR a word character (with optional space)
+    - `...` must be preceded by the start of the text OR a word character (with optional space)
     - `...` must be followed by word character (with optional space) OR punctuation OR end of line
     - If immediately before the `...` is a word character (no whitespace), a space is inserted before it.
     - If immediately after the `...` is a word character (no whitespace), a space is inserted after it.
